@@ -9,6 +9,7 @@ import (
 	"strings"
 
 	"gvc/internal/driver"
+	"gvc/internal/geval"
 )
 
 // nondetSources is C08's frame obligation: the generator's own code (packages
@@ -164,4 +165,48 @@ func rootObj(info *types.Info, e ast.Expr) types.Object {
 			return nil
 		}
 	}
+}
+
+// flatPredConformance: the predicates the contracts abstract to "comparable and
+// reference-free" (abstract: pred flat) are checked against their bodies: every
+// path of the body, with its recursive calls abstracted, answers what the flat
+// predicate answers for the argument type as the path finally knows it.
+func flatPredConformance(ctx *Ctx, keys ...string) ([]driver.ObResult, error) {
+	var out []driver.ObResult
+	for _, key := range keys {
+		name := "G:" + key + "/abstract-conforms:flat"
+		con := ctx.L.Contracts.Funcs[key]
+		if con == nil || !strings.Contains(con.Attr("abstract"), "flat") {
+			out = append(out, driver.ObResult{Name: name, ID: name + "#0", Kind: "contract-applies", Func: key, Status: "refuted", Backend: "gvc", Layer: "G",
+				Output: "no contract 'abstract: pred flat' for " + key})
+			continue
+		}
+		it := geval.NewInterp(ctx.L)
+		paths, err := it.FlatPredConformance(key, 5000)
+		if err != nil {
+			out = append(out, driver.ObResult{Name: name, ID: name + "#0", Kind: "contract-applies", Func: key, Status: "refuted", Backend: "gvc", Layer: "G", Output: err.Error()})
+			continue
+		}
+		n := 0
+		for i, p := range paths {
+			if ok, _ := p.Consistent(); !ok {
+				continue
+			}
+			n++
+			r := driver.ObResult{Name: name, ID: fmt.Sprintf("%s#%d", name, i), Kind: "post", Func: key, Status: "unsat", Backend: "symbolic evaluation (geval)", Layer: "G"}
+			switch {
+			case p.Unsupported != nil:
+				r.Status, r.Output = "refuted", fmt.Sprintf("the body leaves the evaluator's subset: %v on path %s", *p.Unsupported, p.Name())
+			case p.Aborted != "":
+				r.Status, r.Output = "refuted", "aborted: "+p.Aborted+" on path "+p.Name()
+			case p.Conformance != "":
+				r.Status, r.Output = "refuted", p.Conformance+" on path "+p.Name()
+			}
+			out = append(out, r)
+		}
+		if n == 0 {
+			out = append(out, driver.ObResult{Name: name, ID: name + "#0", Kind: "vacuity", Func: key, Status: "refuted", Backend: "gvc", Layer: "G", Output: "no feasible path"})
+		}
+	}
+	return out, nil
 }
